@@ -58,6 +58,25 @@ Theorem C09_open_by_id_never_wrong : forall frepr loads_b f s i s' sp,
 Proof. exact open_by_id_never_wrong. Qed.
 Print Assumptions C09_open_by_id_never_wrong.
 
+(* ... and however often the state point is asked for through that ONE handle (a retry after the first access
+   raised, an error handler printing job.sp): a failed access leaves the handle uninitialised, so the next access
+   loads and validates again; every state point the handle ever shows hashes to the (resolved) id *)
+Theorem C09_open_by_id_repeated_never_wrong : forall frepr loads_b n f s i s' l sp,
+  Inv frepr f s -> open_sp_rep frepr loads_b n f s i = (s', l) -> In (Ok sp) l ->
+  exists m, (m = i \/ resolve_id f i = Ok m) /\ cid frepr sp = m.
+Proof. exact open_sp_rep_never_wrong. Qed.
+Print Assumptions C09_open_by_id_repeated_never_wrong.
+
+(* ... also when the persistent cache is (re)built AFTER the damage: update_cache() validates every state point it
+   reads from the workspace, so whatever it returns or raises the cache file stays sound, and a fresh session
+   opening by id afterwards raises or returns a state point hashing to the id *)
+Theorem C09_update_cache_then_open_never_wrong : forall frepr loads_s loads_b f s f' s' r i s'' sp,
+  Inv frepr f s -> update_cache frepr loads_s f s = (f', s', r) ->
+  open_sp_by_id frepr loads_b f' fresh i = (s'', Ok sp) ->
+  exists m, (m = i \/ resolve_id f' i = Ok m) /\ cid frepr sp = m.
+Proof. exact update_cache_then_open_never_wrong. Qed.
+Print Assumptions C09_update_cache_then_open_never_wrong.
+
 (* ---------------------------------------------------------------- repair_restores
    After repair() — for EVERY outcome; the loop is no longer left by an exception (fix: bdc03b3) — every damaged
    job whose state point is in the sound cache validates (C09_repair_restores_cached: full for this class);
